@@ -3,8 +3,8 @@
    tied to preprocess/structure.go and preprocess/element.go by correspondence stage D; the
    slice stiffness is Gen/GenStiffness.v (regenerated from the source). *)
 From Coq Require Import ZArith QArith Qabs List Bool Arith Sorted Permutation.
-From Inkfem Require Import Num.NumOps Gen.GenStiffness Model.Types Model.Slice Model.Dof Model.Assemble
-  Spec.Superposition Proofs.AssembleProofs.
+From Inkfem Require Import Num.NumOps Gen.GenStiffness Gen.GenRecover Model.Types Model.Slice Model.Dof Model.Assemble Model.Recover
+  Spec.Superposition Proofs.AssembleProofs Proofs.FieldProofs Proofs.SystemProofs.
 Import ListNotations.
 Local Open Scope Q_scope.
 
@@ -68,6 +68,14 @@ Theorem C17_constraints_only_touch : forall (cs : list (nat * nat * Q)) (fs : li
      k_final cs sup i j == (if Nat.eqb i j then 1 else 0)).
 Proof. exact constraints_only_touch. Qed.
 Print Assumptions C17_constraints_only_touch.
+
+(* what the superposition means for a displacement vector: row i of (accumulated matrix) x u is the sum
+   of the forces the finite elements exert at number i - each element's stiffness (as assembled)
+   times that element's own six displacements, placed at its six numbers *)
+Theorem C17_matrix_times_u_is_sum_of_element_forces : forall n (u : list Q) (bars : list (pbar Q)) i,
+  Forall (nums_below n) (all_slices bars) ->
+  fsum n (fun j => kraw_at (all_contribs bars) i j * uget u j) == fraw_at (k_terms u bars) i.
+Proof. exact raw_row_is_element_forces. Qed.
 
 (* Non-vacuity: a two-node bar of length 5 satisfies wf_pbar *)
 Example C17_hypotheses_satisfiable :
